@@ -697,7 +697,17 @@ func (in *Interp) exec(fr *Frame, ins ssa.Instruction) {
 				}
 			}
 		}
-		panic(engineError{"SliceToArrayPointer with offset or differing length"})
+		// general case: the pointer is (almost always) dereferenced at once
+		// ([N]T(slice)); hand out a pointer to a snapshot of the region
+		if a, ok := in.arrayAt(s.obj, s.path).(*SArr); ok {
+			cp := newSArrZero(a.w, C64(uint64(n)))
+			cp.copyFrom(C64(0), a.r, s.off, C64(uint64(n)))
+			o := in.newObject(x.Type().(*types.Pointer).Elem(), cp, "array-view")
+			in.p.ex.res.Assumptions = appendUnique(in.p.ex.res.Assumptions, "slice-to-array-pointer conversions at a non-zero offset are modelled as a snapshot (writes through the pointer would not reach the slice)")
+			in.set(fr, x, Ptr{obj: o})
+			return
+		}
+		panic(engineError{"SliceToArrayPointer on non-scalar slice"})
 	default:
 		panic(engineError{fmt.Sprintf("unsupported instruction %T: %v", ins, ins)})
 	}
